@@ -16,13 +16,20 @@ import UnytModel.Ref.Definitions
 
 namespace Unyt.Ref.C15
 
+/-- a published value: SI magnitude, relative tolerance, dimension, and where the tolerance comes
+    from (edition the library follows, its published relative standard uncertainty `u_r`, shift
+    of the recommended value between that edition and CODATA 2018) -/
 structure CRow where
   name : String
   v : Rat
-  cls : Cls
+  tol : Rat
   dim : Dim
+  note : String := ""
 
 def e10 (n : Nat) : Rat := ((10 ^ n : Nat) : Int)
+
+/-- exactly defined: 2⁻⁴⁵ (rounding of the double only) -/
+def tolExact : Rat := 1 / (2 : Rat) ^ (45 : Nat)
 
 -- dimensions (mass, length, time, temperature, angle, current, luminous, logarithmic)
 def dAction : Dim := ⟨1, 2, -1, 0, 0, 0, 0, 0⟩
@@ -38,46 +45,64 @@ def dAccel : Dim := ⟨0, 1, -2, 0, 0, 0, 0, 0⟩
 /-- CODATA 2018 atomic mass constant, kg -/
 def amuQ : Rat := 166053906660 / e10 38
 
-/-- published values -/
+/-- published values (CODATA 2018 unless stated) and the tolerance each row is held to.
+
+  unyt predates the 2019 SI: its `h`, `k_B`, `m_e`, `amu` are CODATA 2010, `e` and `G` are
+  CODATA 2014, `m_p` is CODATA 1986, `c` and `g_n` are exact.  The tolerance of a measured row is
+  a small multiple (≥ 2) of max(published `u_r` of the edition followed, shift of the recommended
+  value between that edition and CODATA 2018): tight enough to catch a slipped digit at the
+  precision the constant was ever known to, wide enough for any edition since 1986. -/
 def rows : List CRow := [
-  ⟨"me", 91093837015 / e10 41, .codata, dm⟩,
+  ⟨"me", 91093837015 / e10 41, 25 / e10 8, dm, "CODATA 2010 (u_r 4.4e-8); 2010→2018 shift 8.7e-8"⟩,
   -- N_A × (1 mol): unyt's `mol` is the pure number N_A, so the SI magnitude of N_A in mol⁻¹ is 1
-  ⟨"Na", 1, .codata, d1⟩,
-  ⟨"mp", 167262192369 / e10 38, .codata, dm⟩,
+  ⟨"Na", 1, 1 / e10 7, d1, "N_A·amu_grams = 1 (molar mass constant, exact before 2019); library: 1 + 2.0e-8"⟩,
+  ⟨"mp", 167262192369 / e10 38, 1 / e10 6, dm, "CODATA 1986 (u_r 5.9e-7); 1986→2018 shift 7.1e-7"⟩,
   -- mass of a hydrogen atom of natural isotopic composition: A_r(H) = 1.00794(7) (IUPAC 2007)
-  ⟨"mh", (100794 / 100000) * amuQ, .derived, dm⟩,
-  ⟨"c", 299792458, .exact, dVel⟩,
-  ⟨"σ_T", 66524587321 / e10 39, .codata, dArea⟩,
-  ⟨"qp", 1602176634 / e10 28, .codata, dCharge⟩,
-  ⟨"qe", -(1602176634 / e10 28), .codata, dCharge⟩,
-  ⟨"kb", 1380649 / e10 29, .codata, dEntropy⟩,
-  -- G is known to 2.2e-5 and has moved by more than that between adjustments
-  ⟨"G", 667430 / e10 16, .derived, dNewtonG⟩,
-  ⟨"h", 662607015 / e10 42, .codata, dAction⟩,
-  ⟨"hbar", 1054571817 / e10 43, .codata, dAction⟩,
-  ⟨"σ", 5670374419 / e10 17, .codata, dSigma⟩,
-  ⟨"a", 7565733250 / e10 25, .codata, dRadA⟩,
-  ⟨"Tcmb", 27255 / 10000, .astro, dK⟩,
-  ⟨"Msun", 198841 * e10 25, .astro, dm⟩,
-  ⟨"Mjup", 189813 * e10 22, .astro, dm⟩,
-  ⟨"mercury_mass", 33011 * e10 19, .astro, dm⟩,
-  ⟨"venus_mass", 48675 * e10 20, .astro, dm⟩,
-  ⟨"Mearth", 59722 * e10 20, .astro, dm⟩,
-  ⟨"mars_mass", 64171 * e10 19, .astro, dm⟩,
-  ⟨"saturn_mass", 56834 * e10 22, .astro, dm⟩,
-  ⟨"uranus_mass", 86813 * e10 21, .astro, dm⟩,
-  ⟨"neptune_mass", 102413 * e10 21, .astro, dm⟩,
-  ⟨"m_pl", 2176434 / e10 14, .derived, dm⟩,
-  ⟨"l_pl", 1616255 / e10 41, .derived, dL⟩,
-  ⟨"t_pl", 5391247 / e10 50, .derived, dT⟩,
-  ⟨"E_pl", 1956100000, .derived, dEnergy⟩,
-  ⟨"q_pl", 1875546 / e10 24, .derived, dCharge⟩,
-  ⟨"T_pl", 1416784 * e10 26, .derived, dK⟩,
+  ⟨"mh", (100794 / 100000) * amuQ, 7 / e10 5, dm, "IUPAC A_r(H) = 1.00794(7): u_r 7e-5"⟩,
+  ⟨"c", 299792458, tolExact, dVel, "exact (SI)"⟩,
+  ⟨"σ_T", 66524587321 / e10 39, 1 / e10 7, dArea, "CODATA 2006-era value (u_r 4.1e-9); shift to 2018 2.8e-8"⟩,
+  ⟨"qp", 1602176634 / e10 28, 25 / e10 9, dCharge, "CODATA 2014 (u_r 6.1e-9); 2014→exact shift 8.2e-9"⟩,
+  ⟨"qe", -(1602176634 / e10 28), 25 / e10 9, dCharge, "= −qp"⟩,
+  ⟨"kb", 1380649 / e10 29, 1 / e10 6, dEntropy, "CODATA 2010 (u_r 9.1e-7); 2010→exact shift 1.4e-7"⟩,
+  ⟨"G", 667430 / e10 16, 1 / e10 4, dNewtonG, "CODATA 2014 (u_r 4.7e-5); 2014→2018 shift 3.3e-5; 2018 u_r 2.2e-5"⟩,
+  ⟨"h", 662607015 / e10 42, 25 / e10 8, dAction, "CODATA 2010 (u_r 4.4e-8); 2010→exact shift 8.7e-8"⟩,
+  ⟨"hbar", 1054571817 / e10 43, 25 / e10 8, dAction, "h/2π, as h"⟩,
+  ⟨"σ", 5670374419 / e10 17, 1 / e10 6, dSigma, "∝ k⁴/h³: CODATA 2010 u_r 3.6e-6; shift 3.2e-7"⟩,
+  ⟨"a", 7565733250 / e10 25, 1 / e10 6, dRadA, "4σ/c, as σ"⟩,
+  ⟨"Tcmb", 27255 / 10000, 5 / e10 4, dK, "Fixsen 2009: 2.72548(57) K, u_r 2.1e-4; library 2.726 (Mather et al.)"⟩,
+  ⟨"Msun", 198841 * e10 25, 1 / e10 4, dm, "IAU 2015 B3 GM_sun/G; limited by G (u_r 2.2e-5 … 4.7e-5)"⟩,
+  -- planets: the library's values are system masses (planet + moons, Standish 1995); the reference is
+  -- the planet alone (IAU 2015 / NASA fact sheets); moons contribute up to 2.5e-4 (Saturn)
+  ⟨"Mjup", 189813 * e10 22, 5 / e10 4, dm, "planet alone; moons 2.1e-4"⟩,
+  ⟨"mercury_mass", 33011 * e10 19, 5 / e10 4, dm, ""⟩,
+  ⟨"venus_mass", 48675 * e10 20, 5 / e10 4, dm, ""⟩,
+  ⟨"Mearth", 59722 * e10 20, 5 / e10 4, dm, "planet alone; the Moon is 1.23e-2"⟩,
+  ⟨"mars_mass", 64171 * e10 19, 5 / e10 4, dm, ""⟩,
+  ⟨"saturn_mass", 56834 * e10 22, 5 / e10 4, dm, "moons 2.5e-4"⟩,
+  ⟨"uranus_mass", 86813 * e10 21, 5 / e10 4, dm, ""⟩,
+  ⟨"neptune_mass", 102413 * e10 21, 5 / e10 4, dm, "Triton 2.1e-4"⟩,
+  -- Planck units ∝ G^(±1/2): half of G's tolerance
+  ⟨"m_pl", 2176434 / e10 14, 5 / e10 5, dm, "∝ G^(-1/2)"⟩,
+  ⟨"l_pl", 1616255 / e10 41, 5 / e10 5, dL, "∝ G^(1/2)"⟩,
+  ⟨"t_pl", 5391247 / e10 50, 5 / e10 5, dT, "∝ G^(1/2)"⟩,
+  ⟨"E_pl", 1956100000, 5 / e10 5, dEnergy, "∝ G^(-1/2); reference given to 5 digits"⟩,
+  ⟨"q_pl", 1875546 / e10 24, 1 / e10 6, dCharge, "e/√α; reference given to 7 digits"⟩,
+  ⟨"T_pl", 1416784 * e10 26, 5 / e10 5, dK, "∝ G^(-1/2)"⟩,
   -- 4π·10⁻⁷ N/A² until 2019; CODATA 2018: 1.25663706212(19)e-6
-  ⟨"mu_0", 125663706212 / e10 17, .conv, dMu0⟩,
-  ⟨"eps_0", 88541878128 / e10 22, .conv, dEps0⟩,
-  ⟨"R_inf", 10973731568160 / e10 6, .codata, dWavenumber⟩,
-  ⟨"standard_gravity", 980665 / 100000, .exact, dAccel⟩
+  ⟨"mu_0", 125663706212 / e10 17, 2 / e10 9, dMu0, "pre-2019 exact 4π·10⁻⁷; differs from the 2018 measured value by 5.4e-10"⟩,
+  ⟨"eps_0", 88541878128 / e10 22, 2 / e10 9, dEps0, "1/(μ₀c²), as μ₀"⟩,
+  ⟨"R_inf", 10973731568160 / e10 6, 5 / e10 7, dWavenumber,
+    "measured to u_r 1.9e-12, but the library derives it from mₑ, h (2010) and e (2014): 1.4e-7 off"⟩,
+  ⟨"standard_gravity", 980665 / 100000, tolExact, dAccel, "exact (CGPM 1901)"⟩
+]
+
+/-- the constants the 2019 SI fixes exactly: the library's literal must be, digit for digit
+    (2⁻⁴⁵), the recommended value of one of these editions — CODATA 2010, CODATA 2014 or the exact
+    SI value (the only value a future update can move to) -/
+def editions : List (String × List (String × Rat)) := [
+  ("h", [("CODATA 2010", 662606957 / e10 42), ("CODATA 2014", 6626070040 / e10 43), ("SI 2019 exact", 662607015 / e10 42)]),
+  ("qp", [("CODATA 2010", 1602176565 / e10 28), ("CODATA 2014", 16021766208 / e10 29), ("SI 2019 exact", 1602176634 / e10 28)]),
+  ("kb", [("CODATA 2010", 13806488 / e10 30), ("CODATA 2014", 138064852 / e10 31), ("SI 2019 exact", 1380649 / e10 29)])
 ]
 
 def find? (name : String) : Option CRow := rows.find? (·.name == name)
@@ -123,16 +148,19 @@ structure NumRelation where
   name : String
   lhs : CExpr
   rhs : CExpr
-  cls : Cls
+  /-- relative tolerance on `lhs/rhs − 1` -/
+  tol : Rat
 
 /-- Thomson cross-section σ_T = (8π/3)·r_e², r_e = e²/(4π ε₀ mₑ c²) -/
 def numRelations : List NumRelation := [
   ⟨"thomson", cref "σ_T",
     .mul (.div (.mul (clit 8) .pi) (clit 3))
          (csq (.div (csq (cref "qp")) (.mul (.mul (.mul (.mul (clit 4) .pi) (cref "eps_0")) (cref "me")) (csq (cref "c"))))),
-    .codata⟩,
+    -- library: −1.7e-7 (σ_T literal of the 2006 era against e (2014), mₑ (2010))
+    5 / e10 7⟩,
   -- the electron-volt is e × 1 V: the unit table and the constants table carry separate literals
-  ⟨"unit_eV", cref "unit:eV", cref "qp", .codata⟩
+  -- library: −3.7e-8 (erg_per_eV 1.602176562e-12 against e (2014))
+  ⟨"unit_eV", cref "unit:eV", cref "qp", 1 / e10 7⟩
 ]
 
 /-- rational enclosure of π (Mathlib: `Real.pi_gt_d20`, `Real.pi_lt_d20`) -/
